@@ -769,7 +769,8 @@ Section G.
   Proof.
     intro H. destruct (cl t) eqn:E; try discriminate H.
     - apply scoped2_boolt. exact E.
-    - apply scoped_2. apply scoped_tok. rewrite E. reflexivity.
+    - intros b r Hr. cbn [app StParser.in_scope_from is_nil]. rewrite E, andb_false_r.
+      destruct (fam k); try reflexivity; apply flag_irrelevant; exact Hr.
   Qed.
 
   Lemma scoped_scoped2_app X Y : scoped X -> scoped2 Y -> scoped2 (X ++ Y).
